@@ -500,9 +500,15 @@ func (c *Compiler) applyUsesToNode(mod, nod, use parse.Node, parentStatus schema
 		c.error(use, err)
 	}
 	if gmod == mod {
-		// Local grouping. Search the grouping space of the local node,
-		// not just the module globals. Also check for status conflicts
-		group, ok = nod.LookupGrouping(gname.Local)
+		// Local grouping. Search the grouping space in which the 'uses'
+		// is written, not just the module globals.  (That is not always
+		// the space of the node the 'uses' sits in: a 'uses' inside an
+		// augment ends up in a node copied from another module's
+		// grouping.)  Also check for status conflicts
+		group, ok = use.LookupGrouping(gname.Local)
+		if !ok {
+			group, ok = nod.LookupGrouping(gname.Local)
+		}
 	} else {
 		group, ok = gmod.LookupGrouping(gname.Local)
 	}
